@@ -19,12 +19,15 @@ variable {α : Type}
 @[simp] theorem modCons_src (s : St α) (c : Task) (f) : (s.modCons c f).src = s.src := rfl
 @[simp] theorem modCons_pending (s : St α) (c : Task) (f) : (s.modCons c f).pending = s.pending := rfl
 @[simp] theorem modCons_wakeLog (s : St α) (c : Task) (f) : (s.modCons c f).wakeLog = s.wakeLog := rfl
+@[simp] theorem modCons_grp (s : St α) (c : Task) (f) : (s.modCons c f).grp = s.grp := rfl
 
 @[simp] theorem wake_items (s : St α) (t : Task) : (s.wake t).items = s.items := rfl
 @[simp] theorem wake_src (s : St α) (t : Task) : (s.wake t).src = s.src := rfl
 @[simp] theorem wake_pending (s : St α) (t : Task) : (s.wake t).pending = s.pending := rfl
-@[simp] theorem wake_cons (s : St α) (t u : Task) :
-    (s.wake t).cons u = if u = t then { s.cons t with woken := true } else s.cons u := rfl
+@[simp] theorem wake_grp (s : St α) (t : Task) : (s.wake t).grp = s.grp := rfl
+/-- waker `w` makes every consumer of its group runnable, and touches nobody else -/
+@[simp] theorem wake_cons (s : St α) (w u : Task) :
+    (s.wake w).cons u = if s.grp u = w then { s.cons u with woken := true } else s.cons u := rfl
 
 @[simp] theorem wakeAll_items (s : St α) (ts : List Task) : (s.wakeAll ts).items = s.items := by
   induction ts generalizing s with
@@ -38,18 +41,25 @@ variable {α : Type}
   induction ts generalizing s with
   | nil => rfl
   | cons t r ih => simp [St.wakeAll, List.foldl] at ih ⊢; rw [ih]; rfl
+@[simp] theorem wakeAll_grp (s : St α) (ts : List Task) : (s.wakeAll ts).grp = s.grp := by
+  induction ts generalizing s with
+  | nil => rfl
+  | cons t r ih => simp [St.wakeAll, List.foldl] at ih ⊢; rw [ih]; rfl
 
 /-- waking only ever sets `woken` flags: every other field of every consumer is untouched -/
 theorem wakeAll_cons (s : St α) (ts : List Task) (u : Task) :
-    (s.wakeAll ts).cons u = { s.cons u with woken := (s.cons u).woken || decide (u ∈ ts) } := by
+    (s.wakeAll ts).cons u = { s.cons u with woken := (s.cons u).woken || decide (s.grp u ∈ ts) } := by
   induction ts generalizing s with
   | nil => simp [St.wakeAll]
   | cons t r ih =>
     have : St.wakeAll s (t :: r) = St.wakeAll (s.wake t) r := rfl
     rw [this, ih]
-    by_cases h : u = t
-    · subst h; simp
+    have hmem : decide (s.grp u ∈ t :: r) = (decide (s.grp u = t) || decide (s.grp u ∈ r)) := by
+      simp
+    rw [hmem]
+    by_cases h : s.grp u = t
     · simp [h]
+    · simp [h]; rfl
 
 
 /-! ### the scripted source -/
@@ -105,11 +115,13 @@ structure Safe (all : List α) (s : St α) : Prop where
   /-- a cursor beyond the cache means the source has ended (so the cache will not grow) -/
   over : ∀ c, s.items.length < (s.cons c).curr → s.src.rest = [] ∧ s.src.endNeed = 0
 
-theorem safe_init (script : List (Nat × α)) (e : Nat) : Safe (script.map (·.2)) (init script e) := by
+theorem safe_init (script : List (Nat × α)) (e : Nat) (grp : Task → Task := id) :
+    Safe (script.map (·.2)) (init script e grp) := by
   constructor <;> simp [init]
 
 theorem pollNextItem_pending {s s' : St α} {c : Task} (h : pollNextItem s c = (s', .pending)) :
-    ∃ src', s.src.poll c = (src', .pending) ∧ s' = { s with src := src', pending := s.pending ++ [c] } := by
+    ∃ src', s.src.poll (s.grp c) = (src', .pending) ∧
+      s' = { s with src := src', pending := s.pending ++ [s.grp c] } := by
   unfold pollNextItem at h
   split at h
   · simp at h
@@ -118,7 +130,7 @@ theorem pollNextItem_pending {s s' : St α} {c : Task} (h : pollNextItem s c = (
     exact ⟨src', hp, h.symm⟩
 
 theorem pollNextItem_ready {s s' : St α} {c : Task} {v : Option α} (h : pollNextItem s c = (s', .ready v)) :
-    ∃ src', s.src.poll c = (src', .ready v) ∧
+    ∃ src', s.src.poll (s.grp c) = (src', .ready v) ∧
       s' = St.wakeAll { s with src := src', pending := [] } s.pending := by
   unfold pollNextItem at h
   split at h
@@ -143,14 +155,15 @@ inductive PollCase (s : St α) (c : Task) : St α × PollRes α → Prop
   | cached (h : (s.cons c).curr < s.items.length) :
     PollCase s c (s.modCons c (deliver ((s.cons c).curr + 1) (s.items[(s.cons c).curr]?).toList),
       .ready s.items[(s.cons c).curr]?)
-  | pend (src' : Source α) (h : (s.cons c).curr = s.items.length) (hp : s.src.poll c = (src', .pending)) :
-    PollCase s c (St.modCons { s with src := src', pending := s.pending ++ [c] } c park, .pending)
+  | pend (src' : Source α) (h : (s.cons c).curr = s.items.length)
+      (hp : s.src.poll (s.grp c) = (src', .pending)) :
+    PollCase s c (St.modCons { s with src := src', pending := s.pending ++ [s.grp c] } c park, .pending)
   | item (src' : Source α) (it : α) (h : (s.cons c).curr = s.items.length)
-      (hp : s.src.poll c = (src', .ready (some it))) :
+      (hp : s.src.poll (s.grp c) = (src', .ready (some it))) :
     PollCase s c (St.modCons { (St.wakeAll { s with src := src', pending := [] } s.pending) with
         items := s.items ++ [it] } c (deliver ((s.cons c).curr + 1) [it]), .ready (some it))
   | ended (src' : Source α) (h : (s.cons c).curr = s.items.length)
-      (hp : s.src.poll c = (src', .ready none)) :
+      (hp : s.src.poll (s.grp c) = (src', .ready none)) :
     PollCase s c (St.modCons (St.wakeAll { s with src := src', pending := [] } s.pending) c
         (advance ((s.cons c).curr + 1)), .ready none)
   | over (h : s.items.length < (s.cons c).curr) :
@@ -387,9 +400,43 @@ theorem safe_fireSrc {all : List α} {s : St α} (hs : Safe all s) : Safe all (f
     | none => exact key
     | some w =>
       refine safe_of_same key rfl rfl rfl rfl ?_
-      intro t; by_cases ht : t = w
-      · subst ht; simp
+      intro t; by_cases ht : s.grp t = w
       · simp [ht]
+      · simp [ht]
+
+/-! ### the waker assignment `grp` never changes -/
+
+@[simp] theorem pollNext_grp (s : St α) (c : Task) : (pollNext s c).1.grp = s.grp := by
+  have hc := pollNext_cases s c
+  generalize pollNext s c = r at hc
+  cases hc <;> simp
+
+@[simp] theorem clearWoken_grp (s : St α) (c : Task) : (clearWoken s c).grp = s.grp := rfl
+
+@[simp] theorem startReq_grp (s : St α) (c : Task) (d : Nat) : (startReq s c d).grp = s.grp := by
+  unfold startReq; split <;> rfl
+
+@[simp] theorem finishReq_grp (s : St α) (c : Task) : (finishReq s c).grp = s.grp := by
+  unfold finishReq; split <;> rfl
+
+@[simp] theorem fireSrc_grp (s : St α) : (fireSrc s).grp = s.grp := by
+  unfold fireSrc; split <;> rfl
+
+@[simp] theorem step_grp (s : St α) (l : Label) : (step s l).grp = s.grp := by
+  cases l with
+  | start c d => exact startReq_grp s c d
+  | poll c fresh =>
+    simp only [step]
+    split
+    · cases fresh <;> simp
+    · rfl
+  | finish c => exact finishReq_grp s c
+  | fire => exact fireSrc_grp s
+
+@[simp] theorem run_grp (s : St α) (ls : List Label) : (run s ls).grp = s.grp := by
+  induction ls generalizing s with
+  | nil => rfl
+  | cons l r ih => exact (ih (step s l)).trans (step_grp s l)
 
 theorem safe_step {all : List α} {s : St α} (l : Label) (hs : Safe all s) : Safe all (step s l) := by
   cases l with
